@@ -301,6 +301,8 @@ class Interp:
         # to fresh Booleans) instead of aborting; used for decision skeletons whose side computations (metrics, response
         # building) do not matter. Every opaque symbol met is recorded in self.opaque_seen (reported in evidence).
         self.cur_file = [None]
+        self.call_type = None
+        self.let_type = None
         self.lenient = False
         self.events = []
         self.opaque = {}
@@ -447,6 +449,17 @@ class Interp:
                 return r.v
         if callable(f):
             return f(*args)
+        if isinstance(f, tuple) and f and f[0] in ("extern", "fnref"):
+            nm = f[1]
+            tail2 = "::".join(nm.split("::")[-2:])
+            if tail2 in self.fn_models:
+                return self.fn_models[tail2](self, list(args))
+            if nm.split("::")[-1] in self.fn_models:
+                return self.fn_models[nm.split("::")[-1]](self, list(args))
+            if nm.split("::")[-1] in self.prog.fns:
+                return self.call_fn(nm.split("::")[-1], list(args))
+        if isinstance(f, tuple) and f and f[0] == "ctor":
+            return {"Some": Some, "Ok": Ok, "Err": Err}[f[1]](args[0])
         raise Unsupported("call of non-callable %r" % (f,))
 
     # ---------------- patterns ----------------
@@ -1087,7 +1100,12 @@ class Interp:
                     env.define(pat[1], None)
                     return
                 raise Unsupported("let without initialiser")
-            v = self.eval(init, env)
+            prev_lt = self.let_type
+            self.let_type = _ty
+            try:
+                v = self.eval(init, env)
+            finally:
+                self.let_type = prev_lt
             ok = self.bind(pat, v, env)
             if not ok:
                 if els is not None:
@@ -1270,6 +1288,9 @@ class Interp:
                 if (owner, name) in self.prog.methods:
                     it = self.prog.methods[(owner, name)]
                     return self._invoke(it, args, self_ty=owner)
+                if name == "default" and not args and owner in self.prog.structs and self.prog.structs[owner] is not None \
+                        and (owner, "default") not in self.prog.methods:
+                    return self.default_of_type(owner)
                 if owner in ("Arc", "Box", "Rc") and name == "new":
                     return args[0]
                 if owner in ("String", "str") and name in ("from", "new"):
@@ -1303,6 +1324,26 @@ class Interp:
     def ev_mcall(self, e, env):
         recv = self.eval(e[1], env)
         name = e[2]
+        if name in ("copy_from_slice", "fill") and len(e[3]) == 1 and e[1][0] == "index":
+            # base[a..b].copy_from_slice(src) / .fill(v): write through to the underlying vector (a Python slice would be a copy)
+            base = self.eval(e[1][1], env)
+            rng = self.eval(e[1][2], env)
+            if not (isinstance(base, list) and isinstance(rng, tuple) and rng and rng[0] == "range"):
+                raise Unsupported("copy_from_slice target")
+            lo = rng[1] or 0
+            hi = rng[2] if rng[2] is not None else len(base)
+            if hi > len(base) or lo > hi:
+                raise RustPanic("range end index %d out of range for slice of length %d" % (hi, len(base)))
+            src = self.eval(e[3][0], env)
+            if name == "fill":
+                for k in range(lo, hi):
+                    base[k] = src
+                return ()
+            src = list(src)
+            if len(src) != hi - lo:
+                raise RustPanic("source slice length (%d) does not match destination slice length (%d)" % (len(src), hi - lo))
+            base[lo:hi] = src
+            return ()
         if name == "clone_into" and len(e[3]) == 1:
             # a.clone_into(&mut place)  ==  place = a.clone()
             target = e[3][0]
@@ -1312,7 +1353,12 @@ class Interp:
             return ()
         # closures in arguments are evaluated lazily as Closure values
         args = [self.eval(a, env) for a in e[3]]
-        return self.method(recv, name, args)
+        # type information some models need: the turbofish of the call, or the annotation of the enclosing `let`
+        self.call_type = (e[4] if len(e) > 4 and e[4] else None) or self.let_type
+        try:
+            return self.method(recv, name, args)
+        finally:
+            self.call_type = None
 
     # ---------------- methods ----------------
     def method(self, recv, name, args):
